@@ -7,8 +7,8 @@ PROP = "C02"
 BACKEND = "bc"
 DUMP = ("bc", 2, True)
 PROPS_FILE = "C02.v"
-COUNTS_QUICK = {"framealias": 100, "shiftif": 50, "scanclear": 40, "stridescan": 30, "mulcounter": 30, "loopio": 150, "nestuse": 100, "squares": 120, "iopressure": 120, "uniform": 150, "macro": 300, "pressure": 120, "affine": 150, "bigconst": 20, "roam": 40, "diverge": 10}
-COUNTS_THOROUGH = {"framealias": 2500, "shiftif": 1000, "scanclear": 800, "stridescan": 600, "mulcounter": 800, "loopio": 4000, "nestuse": 3000, "squares": 3000, "iopressure": 3000, "uniform": 3000, "macro": 10000, "pressure": 4000, "affine": 4000, "bigconst": 300, "roam": 600, "diverge": 100}
+COUNTS_QUICK = {"scancond": 30, "subconst": 20, "ifclear": 60, "gvnif": 40, "framealias": 100, "shiftif": 50, "scanclear": 40, "stridescan": 30, "mulcounter": 30, "loopio": 150, "nestuse": 100, "squares": 120, "iopressure": 120, "uniform": 150, "macro": 300, "pressure": 120, "affine": 150, "bigconst": 20, "roam": 40, "diverge": 10}
+COUNTS_THOROUGH = {"scancond": 600, "subconst": 300, "ifclear": 1200, "gvnif": 800, "framealias": 2500, "shiftif": 1000, "scanclear": 800, "stridescan": 600, "mulcounter": 800, "loopio": 4000, "nestuse": 3000, "squares": 3000, "iopressure": 3000, "uniform": 3000, "macro": 10000, "pressure": 4000, "affine": 4000, "bigconst": 300, "roam": 600, "diverge": 100}
 LEVELS_QUICK = [0, 1, 2, 3]
 LEVELS_THOROUGH = [0, 1, 2, 3]
 PROFILES = ("debug", "release")
